@@ -4,10 +4,10 @@ import wg_lib
 META = {
     "property_id": "C01",
     "level": "proof",
-    "technique": "Coq: inductive invariant over all schedules of an interleaving machine of SelectableWaitGroup (any number of goroutines, any programs), executable trace monitor c01_ok; tied to the source by an IR term regenerated from the source (eq_refl) whose Coq denotation is proved to be the machine and by deterministic schedule replay on the instrumented real code judged in-kernel by the same monitor",
+    "technique": "Coq: inductive invariant over all schedules of an interleaving machine of SelectableWaitGroup (any number of goroutines, any programs), executable trace monitors (conservative lower bound c01_ok = c01_spec on well-formed traces; real count c01z_ok); tied to the source by a SIMULATION CHECK-LIST proved on every run for the IR regenerated from the source (helpers, loop forms, locals as written), which makes the machine the denotation of that IR, and by deterministic schedule replay - enumerated, random and adversarially directed (starved compare-and-swap, ABA) - on the instrumented real code judged in-kernel by the same monitor",
     "design_ref": "DESIGN.md §4 C01",
-    "level_text": "Proof: WGProofs.v shows by an inductive invariant over the schedule that for every number of goroutines, every client program and every schedule the trace of the machine modelling Add/Wait (one micro-step per atomic load / compare-and-swap / close) satisfies the monitor c01_ok: a channel returned by Wait is closed only if the conservative lower bound of the count was <= 0 at some position since the Wait call; WGSpecProofs.v shows that on every well-formed trace (checked executably on each recorded trace, proved for machine traces) c01_ok is exactly that sentence stated over positions (c01_spec) (Props/C01.v; closed under the global context). The machine is tied to the current source by (T) the IR term regenerated from gsync/selectable_wait_group.go = the hand copy (eq_refl), whose small-step denotation (Base/ConcIR.v) is proved to have the same memory and trace as the machine for every program and schedule (WGDenote.v) and (C) replay of enumerated and random schedules on the real code under a baton-passing scheduler: every recorded trace is judged by c01_ok inside Coq and compared step by step with the machine's trace.",
-    "level_note": "Trusted: Coq kernel + vm_compute; interleaving semantics with sequentially consistent atomics; the instrumenter/translator xlate_conc, the vsched scheduler and the harness; the free-running Go scheduler is only exercised by a -race stress run (partial). No axioms.",
+    "level_text": "Proof: for every number of goroutines, every client program and every schedule the trace of the machine modelling Add/Wait (one micro-step per atomic load / compare-and-swap / close) satisfies (a) C01: a channel returned by Wait is closed only if the conservative lower bound of the count (returned increments + called decrements) was <= 0 at some position since the Wait call - the reading the property's quantifier prescribes; c01_ok is exactly that sentence over positions on every well-formed trace (WGSpecProofs) - and (b) C01_count_zero: the same with the REAL count: some position between the start of the Wait and the observation shows Count() = 0 (WGCountZero.v). Inductive invariants WGInv.v / WGCountZero.InvZ; Props/C01.v, closed under the global context. Tie (T): harness/cmd/xlate_conc re-states Add/Wait/Count and every helper they call in the IR of Base/ConcIR2.v; WGSim.wg_sim_ok - a finite check-list about single micro-steps of the IR's denotation with symbolic inputs - is PROVED for the regenerated term on every run (tactic wg_sim_tac), and WGSim.wg_sim turns it into: same memory and same trace as the machine for every program and schedule; so C01 is a theorem about what the source says now, and renames, helper extraction, loop-form changes, guard clauses, constant extraction do not break the tie while any change of the shared-memory behaviour does. Tie (C): replay of enumerated, random and directed schedules on the real code under a baton-passing scheduler, every recorded trace judged by c01_ok inside Coq and compared step by step (events, return values, Count(), closed channels, canonical sites) with the machine's trace.",
+    "level_note": "Trusted: Coq kernel + vm_compute; interleaving semantics with sequentially consistent atomics; the translator/instrumenter xlate_conc, the denotation of its IR (Base/ConcIR2.v) and the memory interface wg_mem, the vsched scheduler and the harness. Domain restriction: counts are mathematical integers (no int overflow). The free-running Go scheduler is only exercised by a -race stress run (partial). No axioms.",
 }
 
 
